@@ -124,6 +124,9 @@ func f32frombits(b uint32) float32 { return mathFloat32frombits(b) }
 
 // runIsolated re-executes this binary on one case (written as a replay envelope) in a child process with an
 // address-space limit and a timeout.  A child that dies (fatal error, OOM, timeout) is reported as crashed.
+// address-space limit of an isolated child (kB); on-disk Badger maps gigabytes of value log
+var isoVmemKB = 3000000
+
 func runIsolated(id string, caseObj interface{}, a *args, idx int) (st *stats, crashed bool, tail string) {
 	dir := filepath.Join(a.out, fmt.Sprintf("iso_%04d", idx))
 	os.MkdirAll(dir, 0755)
@@ -133,12 +136,23 @@ func runIsolated(id string, caseObj interface{}, a *args, idx int) (st *stats, c
 	exe, _ := os.Executable()
 	ctx, cancel := context.WithTimeout(context.Background(), 60*time.Second)
 	defer cancel()
-	cmd := exec.CommandContext(ctx, "sh", "-c", fmt.Sprintf("ulimit -v 3000000; exec %s %s -replay %s -out %s -tier %s -seed %d", exe, id, rp, dir, a.tier, a.seed))
+	cmd := exec.CommandContext(ctx, "sh", "-c", fmt.Sprintf("ulimit -v %d; exec %s %s -replay %s -out %s -tier %s -seed %d", isoVmemKB, exe, id, rp, dir, a.tier, a.seed))
 	out, err := cmd.CombinedOutput()
 	if err != nil {
-		t := string(out)
-		if len(t) > 600 {
-			t = t[:600]
+		t := ""
+		for _, ln := range strings.Split(string(out), "\n") {
+			if strings.HasPrefix(ln, "panic:") || strings.HasPrefix(ln, "fatal error:") || strings.Contains(ln, "level=fatal") || strings.Contains(ln, "[signal ") {
+				t += ln + " | "
+			}
+		}
+		if t == "" {
+			t = string(out)
+			if len(t) > 600 {
+				t = t[len(t)-600:]
+			}
+		}
+		if len(t) > 800 {
+			t = t[:800]
 		}
 		return nil, true, fmt.Sprintf("%v: %s", err, t)
 	}
